@@ -93,17 +93,22 @@
     table's columns by `Spec.execAll_wf`; no PRIMARY KEY statement by `equal_primary_key_untouched`; the key names
     columns of its table in every reachable schema, `Spec.execAll_pkin`, so no key column is dropped.)
 
-  * `schema_on_reference_engine` — **the whole up migration on the reference engine**: for two scripts without foreign
-    keys and inline PRIMARY KEY, whose common tables keep the relative order of their common columns
-    and their primary key and are outside the recorded region `index-redefined-old-columns-dropped`, and without a
+  * `schema_on_reference_engine` — **the whole up migration on the reference engine**: for two scripts without
+    inline PRIMARY KEY, whose common tables keep the relative order of their common columns
+    and their primary key and are outside the recorded regions `index-redefined-old-columns-dropped` and
+    `foreign-key-redefined` (no foreign key found on both sides of a table differs), and without a
     table named like the bookkeeping table: `Diff` and `MigrationUp` return, and the printed migration — CREATE TABLE
-    with its indexes and key for a table only the new side has (`created_table_spec`), the column and index statements
-    of a table both sides have (`table_spec_up_any`), DROP TABLE for a table only the old side has —, executed statement
+    with its indexes, key and foreign keys for a table only the new side has (`created_table_spec`), the column, index
+    and foreign-key statements of a table both sides have (`table_spec_up_fk_any`: after the column statements the old
+    keys on dropped columns are gone, `Abs.Idx.pruneFk`, and the key walk prints exactly `Abs.Idx.emitKeepSup`, an
+    instance of `plan_correct`; the engine's condition that a key's column exists is `TableSpec.FkWF`, an invariant of
+    every reachable schema), DROP TABLE for a table only the old side has —, executed statement
     by statement by `Spec.execAll` on the old schema (referential checks aside), is well-formed at every step and ends
     in a schema `DB.equiv` to the new one, and every statement acts on an element that differs between the two schemas
     (`table_stmts_justified`: an ADD is about a column only the new side has, a DROP about one only the old side has, a
     MODIFY about a column whose two sides are not equivalent, a CREATE / DROP INDEX about an index the other side does
-    not have or defines differently).  That is the executable predicate `Spec.c01` itself (`migrates` and
+    not have or defines differently, an ADD CONSTRAINT / DROP FOREIGN KEY about a key the other side does not have,
+    `fk_stmts_justified`).  That is the executable predicate `Spec.c01` itself (`migrates` and
     `allJustified`, referential checks aside): `Statement_partial` on that scope, for schemas of any size.  (Proofs/SpecSchema: `migrate_groups` — the printer's output is the concatenation of the
     per-table groups —, `execAll_groups` — each group works on its own table whatever the others did, a frame argument
     over `DB.find` —, and the final comparison of the two table sets.)
@@ -118,9 +123,9 @@
     have gets neither —, which turns the old set of tables into the new one (Proofs/TablesClause: what the two table
     loops of `Migration.Diff` leave, and the table-level content of each printer).
 
-  Missing for `Statement_partial`: a changed primary key (recorded finding `pk-changed`), foreign keys on
-  `Spec.exec` (proved on their abstract machine; their statement order is the recorded finding `referential-ordering`),
-  the other dialects.  Those parts are covered by the correspondence run and
+  Missing for `Statement_partial`: a changed primary key (recorded finding `pk-changed`), the referential checks of
+  `Spec.exec` (the statement order across tables is the recorded finding `referential-ordering`; the theorem runs the
+  engine with those checks off), the other dialects.  Those parts are covered by the correspondence run and
   by the executable predicate `Spec.c01` evaluated on the implementation's printed migration on every check.
 -/
 import SqlizeModel.Abs.Columns
@@ -501,13 +506,13 @@ theorem schema_on_reference_engine (g : Globals) (hg : g.dialect = .mysql) (hio 
     (hpo : old.all Stmt.plainOpts = true) (hpn : new.all Stmt.plainOpts = true)
     (heo : execAll rc [] old = some dbO) (hen : execAll rc [] new = some dbN)
     (hdef : ∀ tb ∈ dbO ++ dbN, tb.name ≠ Migration.defaultMigrationTable)
-    (hnofk : ∀ tb ∈ dbO ++ dbN, tb.fks = [])
     (hboth : ∀ tbO ∈ dbO, ∀ tbN ∈ dbN, tbO.name = tbN.name →
       Abs.OrderCompatible tbN.colNames tbO.colNames ∧ (∀ n ∈ tbN.colNames ++ tbO.colNames, n ≠ "") ∧ tbO.pk = tbN.pk ∧
       (∀ dc : List String, (∀ c ∈ dc, c ∉ tbN.colNames) →
-        ∀ s ∈ tbN.idxs, ∀ o ∈ tbO.idxs, o.name = s.name → o ≠ s → ∃ c ∈ o.cols, c ∉ dc)) :
+        ∀ s ∈ tbN.idxs, ∀ o ∈ tbO.idxs, o.name = s.name → o ≠ s → ∃ c ∈ o.cols, c ∉ dc) ∧
+      (∀ s ∈ tbN.fks, ∀ o ∈ tbO.fks, s.name = o.name → s = o)) :
     ∃ up, modelUp g old new = .ok up ∧ c01 g.ignoreOrder dbO dbN up false = .ok () := by
-  obtain ⟨d, out, hd, hU, ⟨db', he, heq⟩, hj⟩ := schema_spec_up g hg hio rc old new dbO dbN ho hn hpo hpn heo hen hdef hnofk hboth
+  obtain ⟨d, out, hd, hU, ⟨db', he, heq⟩, hj⟩ := schema_spec_up g hg hio rc old new dbO dbN ho hn hpo hpn heo hen hdef hboth
   refine ⟨out.flatten, ?_, ?_⟩
   · unfold modelUp
     simp only [hd, hU, bind, Except.bind, pure, Except.pure]
@@ -557,13 +562,13 @@ theorem schema_on_reference_engine_either_setting (g : Globals) (hg : g.dialect 
     (hpo : old.all Stmt.plainOpts = true) (hpn : new.all Stmt.plainOpts = true)
     (heo : execAll rc [] old = some dbO) (hen : execAll rc [] new = some dbN)
     (hdef : ∀ tb ∈ dbO ++ dbN, tb.name ≠ Migration.defaultMigrationTable)
-    (hnofk : ∀ tb ∈ dbO ++ dbN, tb.fks = [])
     (hboth : ∀ tbO ∈ dbO, ∀ tbN ∈ dbN, tbO.name = tbN.name →
       Abs.OrderCompatible tbN.colNames tbO.colNames ∧ (∀ n ∈ tbN.colNames ++ tbO.colNames, n ≠ "") ∧ tbO.pk = tbN.pk ∧
       (∀ dc : List String, (∀ c ∈ dc, c ∉ tbN.colNames) →
-        ∀ s ∈ tbN.idxs, ∀ o ∈ tbO.idxs, o.name = s.name → o ≠ s → ∃ c ∈ o.cols, c ∉ dc)) :
+        ∀ s ∈ tbN.idxs, ∀ o ∈ tbO.idxs, o.name = s.name → o ≠ s → ∃ c ∈ o.cols, c ∉ dc) ∧
+      (∀ s ∈ tbN.fks, ∀ o ∈ tbO.fks, s.name = o.name → s = o)) :
     ∃ up, modelUp g old new = .ok up ∧ c01 g.ignoreOrder dbO dbN up false = .ok () :=
-  schema_up_any g hg rc old new dbO dbN ho hn hpo hpn heo hen hdef hnofk hboth
+  schema_up_any g hg rc old new dbO dbN ho hn hpo hpn heo hen hdef hboth
 
 -- non-vacuity under the option: the pair `exOldW` / `exNewW`
 example : ∃ up dbO dbN, modelUp { ignoreOrder := true } exOldW exNewW = .ok up ∧ execAll true [] exOldW = some dbO ∧
@@ -581,6 +586,32 @@ def exNewCm : List Stmt :=
                        { name := "b", typ := "text", opts := [{ kind := .comment, text := "same" }] }] []]
 example : ∃ up dbO dbN, modelUp {} exOldCm exNewCm = .ok up ∧ execAll true [] exOldCm = some dbO ∧ execAll true [] exNewCm = some dbN ∧
     up.length = 1 ∧ (c01 false dbO dbN up false).toOption = some () :=
+  ⟨_, _, _, by rfl, by rfl, by rfl, by decide, by decide⟩
+
+-- non-vacuity with foreign keys: a common table keeps one key, gets one with a new column, loses one (DROP FOREIGN KEY)
+-- and loses another together with its column (the DROP is suppressed: DROP COLUMN took the key with it); a table
+-- created with a key; a table dropped with its key
+def exOldFk : List Stmt :=
+  [.createTable "p" 0 [{ name := "id", typ := "int(11)" }] ["id"],
+   .createTable "c" 0 [{ name := "id", typ := "int(11)" }, { name := "pid", typ := "int(11)" }, { name := "qid", typ := "int(11)" },
+                       { name := "sid", typ := "int(11)" }] [],
+   .addFk "c" "fk_p" "pid" "p" "id",
+   .addFk "c" "fk_q" "qid" "p" "id",
+   .addFk "c" "fk_s" "sid" "p" "id",
+   .createTable "g" 0 [{ name := "pid", typ := "int(11)" }] [],
+   .addFk "g" "fk_g" "pid" "p" "id"]
+def exNewFk : List Stmt :=
+  [.createTable "p" 0 [{ name := "id", typ := "int(11)" }] ["id"],
+   .createTable "c" 0 [{ name := "id", typ := "int(11)" }, { name := "pid", typ := "int(11)" }, { name := "rid", typ := "int(11)" },
+                       { name := "sid", typ := "int(11)" }] [],
+   .addFk "c" "fk_p" "pid" "p" "id",
+   .addFk "c" "fk_r" "rid" "p" "id",
+   .createTable "n" 0 [{ name := "pid", typ := "int(11)" }] [],
+   .addFk "n" "fk_n" "pid" "p" "id"]
+example : exOldFk.all Stmt.elemSafe = true ∧ exNewFk.all Stmt.elemSafe = true ∧ exOldFk.all Stmt.plainOpts = true ∧
+    exNewFk.all Stmt.plainOpts = true ∧ (execAll true [] exOldFk).isSome = true ∧ (execAll true [] exNewFk).isSome = true := by decide
+example : ∃ up dbO dbN, modelUp {} exOldFk exNewFk = .ok up ∧ execAll true [] exOldFk = some dbO ∧ execAll true [] exNewFk = some dbN ∧
+    up.length = 7 ∧ (c01 false dbO dbN up false).toOption = some () :=
   ⟨_, _, _, by rfl, by rfl, by rfl, by decide, by decide⟩
 
 end Sqlize.C01
